@@ -1,6 +1,6 @@
 """C11 - construction validates: structural clauses of add_edge / add_face / add_cell and their tet/hex overrides"""
 from .extract import AnalysisBroken
-from .facts import as_assign, estr, unwrap, walk
+from .facts import as_assign, estr, need_names, unwrap, walk
 from .lockstep import Ctx, elem_effects
 from .readers import cmp_parts, strip_casts
 from .rule_l import effects
@@ -162,6 +162,7 @@ def run(ck, fb, fbd):
 
 
 def topology_face(ck, f, reject):
+    need_names(f, ["i", "_topologyCheck"], None, "C11.topology")
     p0 = f.d["params"][0]["n"]
     consecutive = closing = False
     for b, i, x in reject:
@@ -182,6 +183,7 @@ def topology_face(ck, f, reject):
 
 
 def topology_cell(ck, f, reject):
+    need_names(f, ["duplicate", "n_halfedges", "n_edges"], None, "C11.topology")
     calls = [(b, i, x) for b, i, x in f.nodes(("call",)) if x.get("pn", "") in ("std::sort", "std::adjacent_find", "std::unique")]
     names = {x["pn"] for b, i, x in calls}
     roots = set()
@@ -211,6 +213,7 @@ def topology_cell(ck, f, reject):
 
 
 def dedup(ck, c, f, reject):
+    need_names(f, ["_allowDuplicates", "_fromVertex", "_toVertex"], None, "C11.dedup")
     h = c.has_name([k for k, (kk, hf) in c.km.caches.items() if kk == "Vertex"][0])
     bu = lin = set()
     bu_ok = False
